@@ -465,9 +465,10 @@ pub struct Budget {
 fn budget(prop: &str, tier: &str) -> Budget {
     let env_runs = std::env::var("VERIF_RUNS").ok().and_then(|s| s.parse::<u64>().ok());
     let quick = match prop {
-        "C14" => 6000,
+        "C14" => 4000,
         "C07" | "C12" | "C08" => 5000,
         "C16" => 1800,
+        "C13" | "C18" | "C11" => 2800,
         _ => 4000,
     };
     let second = std::env::var("CCSIM_EVIDENCE_TAG").is_ok();
@@ -610,7 +611,8 @@ pub fn check(prop: &str, tier: &str, extra: &[String]) -> i32 {
     let mut known_seen: Vec<String> = vec![];
     let mut exit_code = 0;
     let mut harness_error: Option<String> = None;
-    let replay_timeout = b.watchdog;
+    // replays (record mode, verbose errors) get three times the workers' watchdog
+    let replay_timeout = b.watchdog * 3;
 
     for (f, sig) in &regression_failures {
         if known.known.iter().any(|k| k.0 == prop && &k.1 == sig) {
